@@ -13,9 +13,9 @@ def queries(tier, kfs):
     qs = []
     cfg = [  # n, looped, multi, threads, BLA, BLB, MASKA, MASKB, PA, PB
         (4, 0, 0, 0, 0b1001, 0b0001, -1, -1, 1, 1), (4, 0, 0, 0, 0b1111, 0b1001, 0b0110, -1, 1, 1), (4, 1, 0, 2, 0b0001, 0b0100, -1, 0b0010, 1, 1),
-        (4, 0, 1, 0, 0b1001, 0b1000, -1, -1, 0, 1), (3, 1, 1, 0, 0b001, 0b001, 0b100, -1, 1, 0), (4, 0, 1, 0, 0b0110, 0b1001, -1, -1, 1, 1)]
+        (3, 0, 1, 0, 0b101, 0b100, -1, -1, 0, 1), (3, 1, 1, 0, 0b001, 0b001, 0b100, -1, 1, 0)]
     if tier != 'quick':
-        cfg += [(5, 0, 0, 3, 0b10001, 0b00100, -1, 0b01000, 1, 1), (6, 0, 0, 0, 0b100001, 0b000001, 0b001100, -1, 1, 1)]
+        cfg += [(4, 0, 1, 0, 0b1001, 0b1000, -1, -1, 0, 1), (4, 0, 1, 0, 0b0110, 0b1001, -1, -1, 1, 1), (5, 0, 0, 3, 0b10001, 0b00100, -1, 0b01000, 1, 1), (6, 0, 0, 0, 0b100001, 0b000001, 0b001100, -1, 1, 1)]
     for (n, looped, multi, thr, bla, blb, ma, mb, pa, pb) in cfg:
         hd = dict(N=n, D=2, GRID=0, MULTI=multi, THREADS=thr, BLA=bla, BLB=blb, MASKA=ma, MASKB=mb, PA=pa, PB=pb, SPACING='3.0')
         if looped:
